@@ -493,6 +493,70 @@ def run_async(ctx, hi, hist):
     shutil.rmtree(base, ignore_errors=True)
 
 
+def child_two_prefixes(d, backend, io, pa, pb, order):
+  """Saves under two prefixes that live in one directory; returns the per-prefix listing / latest after every save."""
+  from flax.training import checkpoints
+  configure(backend, io)
+  trace = []
+  for which, step, keep in order:
+    prefix = pa if which == 'a' else pb
+    oc = do_save(d, dict(prefix=prefix), (step, keep, None, False))
+    row = dict(op=[which, step, keep], outcome=oc)
+    for nm, pf in (('a', pa), ('b', pb)):
+      names = sorted(os.listdir(d))
+      other = pb if nm == 'a' else pa
+      # files of prefix pf: the step part must be a number (this is how the two families are told apart by a reader)
+      mine = [n for n in names if n.startswith(pf) and _is_number(n[len(pf):])]
+      lp = checkpoints.latest_checkpoint(d, prefix=pf)
+      row[nm] = dict(listing=mine, latest=None if lp is None else os.path.basename(lp))
+    trace.append(row)
+  return trace
+
+
+def _is_number(s):
+  try:
+    float(s)
+    return True
+  except ValueError:
+    return False
+
+
+def run_two_prefixes(ctx, i):
+  """Two families of checkpoints in one directory (the usual 'ckpt_' + 'ckpt_best_' layout): a save under one prefix follows its own
+  retention policy and never lists, orders against or deletes the other family. Nested prefixes have their own mechanism suffix."""
+  from vf import crash
+  backend = ['legacy', 'orbax'][i % 2]
+  io = ['TF', 'DEFAULT'][(i // 2) % 2]
+  pa, pb, nested = [('ckpt_', 'ckpt_best_', True), ('a_', 'b_', False), ('run_', 'run_ema_', True), ('model_', 'optim_', False)][(i // 4) % 4]
+  order = [[('b', 7, 1), ('a', 1, 1), ('a', 2, 1), ('a', 3, 1)], [('a', 1, 2), ('b', 7, 1), ('a', 2, 2), ('b', 9, 1), ('a', 3, 2)],
+           [('a', 5, 1), ('a', 6, 1), ('b', 2, 1), ('a', 7, 1)]][(i // 16) % 3]
+  desc = dict(backend=backend, io=io, prefixes=(pa, pb), nested=nested, order=order)
+  sfx = ':nested_prefixes' if nested else ''
+  with ctx.case('two_prefixes', i, desc, nontrivial=True):
+    base = tempfile.mkdtemp(prefix='vf-c11p-')
+    try:
+      st, trace, err = crash.fork_run(lambda: child_two_prefixes(base, backend, io, pa, pb, order))
+      if trace is None:
+        ctx.check(False, 'prefixes.child_failed' + sfx, dict(case=desc, error=err))
+        return
+      present = {'a': set(), 'b': set()}
+      for row in trace:
+        which, step, keep = row['op']
+        oc, new = model_save(present[which], step, keep, None, False, backend)
+        ctx.op('save_checkpoint(two prefixes)')
+        det = lambda: dict(case=desc, row=row, model={k: sorted(v) for k, v in present.items()})  # noqa: E731
+        ctx.check((row['outcome'] == 'ok') == (oc == 'ok'), 'prefixes.outcome' + sfx, det)
+        if row['outcome'] == 'ok':
+          present[which] = new
+        for nm, pf in (('a', pa), ('b', pb)):
+          got = {float(n[len(pf):]) for n in row[nm]['listing']}
+          ctx.check(got == {float(x) for x in present[nm]}, 'prefixes.retention' + sfx, det)
+          want_latest = None if not present[nm] else fmt(pf, max(present[nm]))
+          ctx.check(row[nm]['latest'] == want_latest, 'prefixes.latest' + sfx, det)
+    finally:
+      shutil.rmtree(base, ignore_errors=True)
+
+
 def run(ctx):
   # everything the children need is imported here, once, so that forked children neither pay the import cost nor import
   # concurrently from two threads (the JAX backend stays untouched in this process)
@@ -518,3 +582,5 @@ def run(ctx):
   ahists += [h for h in hists if h['backend'] == 'legacy'][: (2 if ctx.tier == 'quick' else 30)]
   for hi, hist in ctx.items(ahists, 'async'):
     run_async(ctx, hi, hist)
+  for i in ctx.indices(16 if ctx.tier == 'quick' else 48, 'two_prefixes'):
+    run_two_prefixes(ctx, i)
